@@ -1089,7 +1089,91 @@ impl Scenario for IsolationScn {
     }
 }
 
+/// Long history: one zone, 70-260 small commits one after the other
+/// (update an RRset, remove one, add a name, bump the SOA), readers taken at
+/// drawn points and held to the end. Every held reader still walks - and
+/// answers the SOA query with - exactly the content of its version, however
+/// many versions have come since; a new reader sees the last commit.
+async fn long_history() {
+    sim::stat("probe.long_history_of_commits_with_readers_held");
+    let names: Vec<String> = (0..6).map(|i| format!("lh{}.{}", i, APEX)).collect();
+    let mut content = initial_content(&names, 6);
+    let zone = match build_direct(&content) {
+        Ok(z) => z,
+        Err(e) => {
+            sim::harness_error(format!("initial zone: {}", e));
+            return;
+        }
+    };
+    let n_commits = 70 + sim::draw("long_history.commits", 190) as usize;
+    ev!("long history: {} commits", n_commits);
+    let mut held: Vec<(usize, Box<dyn ReadableZone>, Vec<(String, Rtype, u32, Vec<String>)>)> = Vec::new();
+    let snapshot = |c: &Content| -> Vec<(String, Rtype, u32, Vec<String>)> { content_as_walk(c).iter().map(|(o, t, ttl, rds, _)| (o.clone(), *t, *ttl, rds.clone())).collect() };
+    let seen = |r: &dyn ReadableZone| -> Vec<(String, Rtype, u32, Vec<String>)> { walk_zone(r).iter().map(|(o, t, ttl, rds, _)| (o.clone(), *t, *ttl, rds.clone())).collect() };
+    held.push((0, zone.read(), snapshot(&content)));
+    for n in 1..=n_commits {
+        let mut w = zone.write().await;
+        let root = w.open(false).await.expect("open");
+        let owner = names[sim::draw("long_history.name", names.len() as u64) as usize].clone();
+        let rtype = *sim::pick("long_history.type", &[Rtype::A, Rtype::TXT]);
+        let node = match root.update_child(&domain::base::name::Label::from_slice(owner.split('.').next().unwrap().as_bytes()).unwrap()).await {
+            Ok(nd) => nd,
+            Err(_) => return,
+        };
+        if content.contains_key(&(owner.clone(), rtype)) && sim::chance("long_history.remove", 1, 3) {
+            node.remove_rrset(rtype).await.expect("remove_rrset");
+            content.remove(&(owner.clone(), rtype));
+        } else {
+            let rec = RecSpec { owner: owner.clone(), rtype, ttl: 300, rdata: if rtype == Rtype::A { format!("192.0.2.{}", 1 + n % 250) } else { format!("\"v{}\"", n) } };
+            content.remove(&(owner.clone(), rtype));
+            apply_add(&mut content, &rec);
+            let (ttl, rds) = content.get(&(owner.clone(), rtype)).cloned().unwrap();
+            node.update_rrset(rrset_of(rtype, ttl, &rds, &owner)).await.expect("update_rrset");
+        }
+        // The SOA moves on with every version.
+        content.remove(&(APEX.to_string(), Rtype::SOA));
+        apply_add(&mut content, &RecSpec { owner: APEX.to_string(), rtype: Rtype::SOA, ttl: 3600, rdata: soa_rdata(n as u32 + 1) });
+        let (ttl, rds) = content.get(&(APEX.to_string(), Rtype::SOA)).cloned().unwrap();
+        root.update_rrset(rrset_of(Rtype::SOA, ttl, &rds, APEX)).await.expect("update_rrset");
+        drop(node);
+        drop(root);
+        w.commit(false).await.expect("commit");
+        drop(w);
+        if sim::chance("long_history.take_reader", 1, 25) && held.len() < 6 {
+            held.push((n, zone.read(), snapshot(&content)));
+        }
+        if n % 16 == 0 || n == n_commits {
+            for (at, r, want) in &held {
+                let got = seen(r.as_ref());
+                if got != *want {
+                    let missing: Vec<_> = want.iter().filter(|x| !got.contains(x)).take(3).collect();
+                    let extra: Vec<_> = got.iter().filter(|x| !want.contains(x)).take(3).collect();
+                    sim::violation(P9, "isolation", "held-reader-lost-its-version-after-many-commits".to_string(), format!("a reader taken after commit {} and held: after commit {} its walk no longer shows its version (missing {:?}, unexpected {:?})", at, n, missing, extra));
+                    return;
+                }
+                match query_zone(r.as_ref(), APEX, Rtype::SOA) {
+                    Ok(a) if a.answer.len() == 1 && a.answer[0].3.split_whitespace().nth(2) == Some(&format!("{}", at + 1)) => {}
+                    other => {
+                        sim::violation(P9, "isolation", "held-reader-lost-its-version-after-many-commits".to_string(), format!("a reader taken after commit {} and held: after commit {} its SOA query answers {:?}", at, n, other));
+                        return;
+                    }
+                }
+            }
+        }
+        if n % 8 == 0 {
+            step().await;
+        }
+    }
+    let fresh = seen(zone.read().as_ref());
+    if fresh != snapshot(&content) {
+        sim::violation(P9, "commit-content", "new-reader-differs-from-last-commit/long-history".to_string(), format!("after {} commits a new reader does not walk the last committed content", n_commits));
+    }
+}
+
 async fn run_isolation(_tier: Tier) {
+    if sim::chance("long_history", 1, 150) {
+        return long_history().await;
+    }
     let all = universe_names();
     // Per-run focus: a small set of owner names so that operations collide.
     let n_names = 3 + sim::draw("focus.n_names", 6) as usize;
